@@ -30,6 +30,66 @@ func Families(quick bool) []*prog.Case {
 	return cases
 }
 
+// Bases returns the reduced-alphabet base programs used by the metamorphic checks (C09)
+// and by the differential back-end check (C02).
+func Bases(quick bool) []*prog.Case {
+	types := []fl.TInt{fl.I8, fl.U8, fl.I32, fl.I64}
+	if quick {
+		types = []fl.TInt{fl.I8, fl.I32}
+	}
+	var cases []*prog.Case
+	for _, k := range famArith(true, types) {
+		if strings.Contains(k.ID, "/let/print/") || strings.Contains(k.ID, "/let/eq/") || strings.Contains(k.ID, "/call/eq/") || strings.Contains(k.ID, "/let/store/") {
+			if quick && !(strings.Contains(k.ID, "/add/") || strings.Contains(k.ID, "/div/")) {
+				continue
+			}
+			cases = append(cases, k)
+		}
+	}
+	for _, k := range famCmp(true, types) {
+		if strings.Contains(k.ID, "/let/") && (!quick || strings.Contains(k.ID, "/lt/")) {
+			cases = append(cases, k)
+		}
+	}
+	for _, k := range famCast(true, types) {
+		cases = append(cases, k)
+	}
+	cases = append(cases, famFlow(true)...)
+	cases = append(cases, famEnum(true)...)
+	cases = append(cases, famByValue(true)...)
+	if quick {
+		var thin []*prog.Case
+		nflow := 0
+		for _, k := range cases {
+			if strings.HasPrefix(k.ID, "C01/flow/") {
+				nflow++
+				if nflow > 120 {
+					continue
+				}
+			}
+			if strings.HasPrefix(k.ID, "C01/byvalue/") && !strings.Contains(k.ID, "/typed/") {
+				continue
+			}
+			thin = append(thin, k)
+		}
+		cases = thin
+	}
+	return cases
+}
+
+// Small returns the families that are small enough to be used whole by other checks.
+func Small(quick bool) []*prog.Case {
+	var cases []*prog.Case
+	cases = append(cases, famOrder(quick)...)
+	cases = append(cases, famFunc(quick)...)
+	cases = append(cases, famResult(quick)...)
+	cases = append(cases, famRef(quick)...)
+	cases = append(cases, famStr(quick)...)
+	cases = append(cases, famPanic(quick)...)
+	cases = append(cases, famUnary(true, []fl.TInt{fl.I8, fl.U8, fl.I32, fl.U32, fl.I64, fl.U64})...)
+	return cases
+}
+
 func Filter(cases []*prog.Case) []*prog.Case {
 	f := os.Getenv("VERIF_FILTER")
 	if f == "" {
